@@ -18,8 +18,8 @@ man = {
   {"name": "enum", "path": "mc/refcodec.py", "serves_properties": ["C01","C02","C03","C04","C20"], "kind_free_text": "bounded-exhaustive input enumeration of the sequential codec against an independent reference codec"},
   {"name": "simkernel", "path": "mc/simkernel.py", "serves_properties": ["C05","C06","C07","C08","C09","C10","C11","C12","C13","C14","C15","C16","C17","C18","C19"], "kind_free_text": "deterministic cooperative scheduler + virtual clock + fake socket layer under the unmodified node code"},
   {"name": "histbfs", "path": "mc/histbfs.py", "serves_properties": ["C06","C07","C08","C09","C11","C12","C13","C17","C19"], "kind_free_text": "explicit-state BFS over environment event histories; each transition executes the real node"},
-  {"name": "scheddfs", "path": "mc/scheddfs.py", "serves_properties": ["C10","C15","C16"], "kind_free_text": "stateless DFS over thread schedules with iterative preemption bounding (CHESS style)"},
-  {"name": "faultenum", "path": "mc/faultenum.py", "serves_properties": ["C05","C14","C18"], "kind_free_text": "every cut point x fault kind of scripted scenarios, followed by a service probe"}
+  {"name": "scheddfs", "path": "mc/scheddfs.py", "serves_properties": ["C06","C07","C08","C09","C10","C11","C12","C13","C15","C16","C17","C18"], "kind_free_text": "stateless DFS over thread schedules with iterative preemption bounding (CHESS style)"},
+  {"name": "faultenum", "path": "mc/checks/c14.py", "serves_properties": ["C05","C14","C18"], "kind_free_text": "every cut point x fault kind of scripted scenarios, followed by a service probe"}
  ],
  "checks": [
   {"property_id": pid, "quick_cmd": f"./check {pid} --tier quick", "thorough_cmd": f"./check {pid} --tier thorough",
